@@ -43,4 +43,10 @@ theorem c10_rawclass_irrelevant {P O T V : Type} (env : Env P O T V) (kindOf : P
     (runChecksG env (fun p => rawOf key (kindOf p)) (owOf key) viaPtr cs v).val = (runChecks env cs v).val :=
   c10_generic_all env _ (owOf key) viaPtr cs v
 
+-- the cells read from the current tree, as the driver reads them
+example : rawOf "i" "builtin" = .issue ∧ rawOf "i" "chk" = .vac ∧ rawOf "ip" "chk" = .run ∧ owOf "sp" = .stay ∧ owOf "s" = .skip := by decide
+-- `c10_rawclass_irrelevant` on a concrete chain: a built-in (issue class) before an overwrite, pointer input of an Int schema
+example : (runChecksG (⟨fun p v => v ≥ p, fun o v => v + o, fun t v => v * t⟩ : Env Nat Nat Nat Nat)
+    (fun _ => rawOf "i" "builtin") (owOf "i") true [.pred 5 false none, .overwrite 1] 5).val = 6 := by decide
+
 end Gozod.C10
